@@ -56,8 +56,12 @@ var vmStructOps = []int{voCreate, voMarkComplete, voOpen, voStat, voHas, voDelet
 // per-blob flags equal the model's afterwards. Creation on an absent key with a
 // symbolic size evicts exactly the model's victims in LRU order.
 func VerifDiskStepFromState() {
-	capacity := verif.Uint64("capacity")
+	capacity := uint64(1000)
+	if verif.Bound("symbolic-capacity", 0, 1) == 1 {
+		capacity = verif.Uint64("capacity")
+	}
 	verif.Assume(capacity <= 1<<62)
+	verif.Note("VerifDiskStepFromState: quick tier uses capacity 1000 with symbolic sizes (thorough: symbolic capacity) — solver cost; symbolic full-range capacity is in the quick tier through VerifDiskLRUHistory and VerifFindingCreateSizeWrap")
 	verif.Note("VerifDiskStepFromState: capacity and sizes <= 2^62 — solver cost only (with full-range values the no-overflow side conditions of up to four summed sizes take the solver 40x longer and time out under load); full-range capacity and sizes are exercised by VerifDiskLRUHistory and VerifFindingCreateSizeWrap")
 	nkeys := verif.Bound("keys", 2, 3)
 	h := vmNew(capacity, nkeys, 0)
